@@ -197,6 +197,14 @@ def _trig_axioms(ctx, t):
     ctx.solver.add(SIN(nt) == -s, COS(nt) == c)
     ctx.solver.add(z3.Implies(t == 0, z3.And(s == 0, c == 1)))
     ctx.used_models.add("math.sin/cos: uninterpreted with sin^2+cos^2=1, parity, sin 0=0, cos 0=1")
+    if ctx.options.get("trig_addition") and z3.is_add(t) and t.num_args() == 2:
+        # addition theorem, instantiated for this sum (contracts that need it switch it on)
+        a, b = t.arg(0), t.arg(1)
+        _trig_axioms(ctx, z3.simplify(a))
+        _trig_axioms(ctx, z3.simplify(b))
+        sa, ca, sb, cb = SIN(z3.simplify(a)), COS(z3.simplify(a)), SIN(z3.simplify(b)), COS(z3.simplify(b))
+        ctx.solver.add(s == sa * cb + ca * sb, c == ca * cb - sa * sb)
+        ctx.used_models.add("math.sin/cos: addition theorem instantiated for sums of two angles (option trig_addition)")
 
 
 def msin(ctx, a, np_style=False):
@@ -299,6 +307,19 @@ def matan2(ctx, y, x, np_style=False):
     ctx.solver.add(z3.Implies(z3.And(xt == 0, yt < 0), r == -PI / 2))
     ctx.solver.add(z3.Implies(xt > 0, z3.And(r > -PI / 2, r < PI / 2)))
     ctx.used_models.add("atan2: uninterpreted with range (-pi,pi] and quadrant facts")
+    return Sym(r, ty)
+
+
+ATAN = z3.Function("atan", z3.RealSort(), z3.RealSort())
+
+
+def matan(ctx, x, np_style=False):
+    """arctan: uninterpreted, range (-pi/2, pi/2), sign of the argument, atan 0 = 0"""
+    ty = np.float64 if np_style else float
+    t = z3.simplify(real_term(x))
+    r = ATAN(t)
+    ctx.solver.add(r > -PI / 2, r < PI / 2, z3.Implies(t > 0, r > 0), z3.Implies(t < 0, r < 0), z3.Implies(t == 0, r == 0))
+    ctx.used_models.add("arctan: uninterpreted with range (-pi/2, pi/2) and the sign of its argument")
     return Sym(r, ty)
 
 
